@@ -1199,7 +1199,7 @@ def entryCover : List EntryCover := [
   ⟨"_morph.subm", [``C10_pair_scan_in_bounds], [``C11_subm_safe], "safe", ""⟩,
   ⟨"_morph.erode", [``C10_filter_table_ok, ``C10_filter_iterator_refines, ``C10_fastbinary_in_bounds, ``C10_alloc_pixel_loop_defined], [``C11_morph_guards_imply_pre, ``C11_erode_dilate_safe], "safe", ""⟩,
   ⟨"_morph.locmin_max", [``C10_filter_table_ok, ``C10_filter_iterator_refines, ``C10_alloc_fill_defined], [], "bounds", "filter iterator + conditional stores at the pixel cursor; no model of its own"⟩,
-  ⟨"_morph.regmin_max", [``C10_filter_table_ok, ``C10_filter_iterator_refines, ``C10_alloc_fill_defined, ``C10_stack_flood_in_bounds, ``C10_position_stack_in_bounds], [], "bounds", "the outer scan of remove_fake_regmin_max (iterator position + neighbours behind validposition) is not traced as a whole"⟩,
+  ⟨"_morph.regmin_max", [``C10_filter_table_ok, ``C10_filter_iterator_refines, ``C10_alloc_fill_defined, ``C10_regmin_max_in_bounds, ``C10_stack_flood_in_bounds, ``C10_position_stack_in_bounds], [], "bounds", "unconditional (every marking, every outcome of the value tests); the locmin_max part is filter iterator + stores at the pixel cursor"⟩,
   ⟨"_morph.dilate", [``C10_filter_table_ok, ``C10_filter_iterator_refines, ``C10_fastbinary_in_bounds, ``C10_alloc_fill_defined], [``C11_morph_guards_imply_pre, ``C11_erode_dilate_safe], "safe", "the scatter writes `filter.set(rpos, j, …)` use the same offset table as the reads"⟩,
   ⟨"_morph.disk_2d", [``C10_disk_2d_in_bounds], [``C11_disk_guards_imply_pre, ``C11_disk_2d_safe], "safe", ""⟩,
   ⟨"_morph.close_holes", [``C10_close_holes_seeding_in_bounds, ``C10_stack_flood_in_bounds, ``C10_close_holes_flood_terminates, ``C10_position_stack_in_bounds, ``C10_alloc_fill_defined], [``C11_2d_guards_imply_pre, ``C11_close_holes_safe], "safe", ""⟩,
